@@ -3,6 +3,11 @@
 import json, os, subprocess
 
 CLAIMS = {
+ "C19": dict(
+   category="exploration", design_ref="DESIGN.md §5 C19",
+   technique="property-based testing (rapid): Go types assembled with reflect from the supported shape vocabulary for generated schemas, an independent reflection walk as oracle, Wrap/Prototype/Unwrap/Marshal/Unmarshal round trips, an integer-range table, and generated histories of binding calls on named types with inferred schemas",
+   text="For generated schemas and values a user-supplied Go type is built with reflect in a drawn variation (every signed/unsigned width per Int position, float32/float64, three link types, pointers for optional/nullable, double pointers for both, nil-able slices as optionals, ordered-map structs, union structs, string- and int-backed enums, Node for Any). An independent reflection walk defines the data the Go value holds: Wrap must read exactly as it (both levels), nodes built through the prototype must Unwrap to a Go value holding the assembled data, Unmarshal(Marshal(v)) into a fresh value must hold the same data; integers outside a narrow Go type's range must be refused. Histories of Wrap/Prototype/Marshal/Unmarshal with inferred and explicit schemas over named types that share nested types must all succeed with equivalent results.",
+   note="Trusted: the reflection walk in harness/gobind. nil and empty slices are the same data; a present-but-empty list in an optional field bound to a bare slice is not generated (Go cannot represent the difference); uint64 beyond int64 is not generated directly inside kinded unions. Inference covers the shapes bindnode documents (no pointers, unions, enums)."),
  "C13": dict(
    category="exploration", design_ref="DESIGN.md §5 C13",
    technique="differential testing over generated programs: schemas drawn by the schema generator are turned into fresh Go packages with gengo.Generate from the working tree, compiled, and a rapid-driven lock-step test (dropped into each package) compares the generated engine with bindnode and with the reference views/conformance parser on generated inputs",
